@@ -71,6 +71,8 @@ def build(case):
           'schedule': case.get('schedule') or {'kind': 'preempt', 'points': []},
           'start_at': {'name': 'ready'},
           'max_steps': case.get('max_steps', 30000)}
+    if case.get('stall'):
+        sc['stall'] = case['stall']
     if case.get('app_echo'):
         sc['app'] = [{'when': {'name': 'text'},
                       'do': [{'op': 'send_text', 'text': 'loop-echo'}]}]
